@@ -66,13 +66,14 @@ def write_html(doc: dict, xhtml: bool = False) -> bytes:
     return f"<!DOCTYPE html><html><head>{head}</head><body>{body}</body></html>".encode()
 
 
-def write_epub(book: dict) -> bytes:
+def write_epub(book: dict, opf_dir: str = "OEBPS") -> bytes:
     """book = {"chapters": [doc ..], "props": {...}, "images": [{"part": "OEBPS/img/a.png", "data": b, "href": "img/a.png",
     "media": "image/png"}], "nonlinear": [..]}"""
     p = book.get("props") or {}
     man, spine, files = "", "", {}
+    pre = (opf_dir.strip("/") + "/") if opf_dir else ""       # package file at the root, one or several directories deep
     for n, ch in enumerate(book["chapters"], start=1):
-        files[f"OEBPS/ch{n}.xhtml"] = write_html(ch, xhtml=True)
+        files[f"{pre}ch{n}.xhtml"] = write_html(ch, xhtml=True)
         man += f'<item id="ch{n}" href="ch{n}.xhtml" media-type="application/xhtml+xml"/>'
         spine += f'<itemref idref="ch{n}"/>'
     for k, img in enumerate(book.get("images") or [], start=1):
@@ -87,10 +88,10 @@ def write_epub(book: dict) -> bytes:
            '<dc:identifier id="uid">urn:uuid:0</dc:identifier><dc:language>en</dc:language>'
            + dc("title", "title") + dc("creator", "author") + dc("subject", "subject") + dc("description", "description")
            + f"</metadata><manifest>{man}</manifest><spine>{spine}</spine></package>")
-    files["OEBPS/content.opf"] = opf.encode()
+    files[f"{pre}content.opf"] = opf.encode()
     files["META-INF/container.xml"] = (
         b'<?xml version="1.0"?><container version="1.0" xmlns="urn:oasis:names:tc:opendocument:xmlns:container">'
-        b'<rootfiles><rootfile full-path="OEBPS/content.opf" media-type="application/oebps-package+xml"/></rootfiles>'
+        b'<rootfiles><rootfile full-path="' + pre.encode() + b'content.opf" media-type="application/oebps-package+xml"/></rootfiles>'
         b"</container>")
     files.update(book.get("extra_files") or {})
     buf = io.BytesIO()
